@@ -132,7 +132,10 @@ package task
 //@ ghost var shErr error scratch
 //@ ghost var shExit bool scratch
 //@ ghost var nestFailed bool scratch
+//@ ghost var runCtx context.Context scratch
+//@ ghost var fullTask *ast.Task scratch
 //@ ghost fact execOK(h string)
+//@ ghost fact execFinished(h string)   -- the registered execution for key h has returned (with any outcome)
 //@ ghost fact notAncestor(h string)
 
 // What calling the execution body of a task means (the closure handed to startExecution).
@@ -155,6 +158,11 @@ package task
 //@   site AddInt32#1 ghost set countOK(call) if result < 1000
 //@   site (*Executor).startExecution#1 requires platformOK(call) && requiredOK(call) && enumOK(call)  [C13]
 //@   site (*Executor).startExecution#1 requires e.Watch || countOK(call)                              [C07]
+// the deduplication key is computed from the FULLY compiled task (dynamic variables resolved), and the body
+// that runs is the one of this call
+//@   site (*Executor).CompiledTask#1 requires arg1 == call                                             [C06,C11]
+//@   site (*Executor).CompiledTask#1 ghost fullTask := result.0
+//@   site (*Executor).startExecution#1 requires arg2 == fullTask && arg1 == ctx                        [C06,C03]
 
 //@ func (*Executor).RunTask$1
 //@   implements taskBody
@@ -270,6 +278,13 @@ package task
 //@   site execute#1 requires h == ""                                                                   [C06]
 //@   site execute#2 requires h != "" && !ok                                                            [C06]
 //@   site execute#2 ghost set execOK(h) if result == nil
+//@   site execute#2 ghost set execFinished(h)
+//@   site recv#1 ghost set execFinished(h)   -- Done() of the context registered for h is closed only when the registering call returns (defer cancel)
+//@   ensures result == nil && h != "" ==> execFinished(h)   -- nobody proceeds while the one real execution is still running   [C01,C06]
+//@   site context.WithCancel#1 requires arg0 == ctx           -- the shared execution stays cancellable by its first caller    [C03]
+//@   site execute#1 requires arg0 == ctx                                                                  [C03]
+//@   site execute#2 requires arg0 == runCtx                                                               [C03]
+//@   site context.WithCancel#1 ghost runCtx := result.0
 //@   site (Context).Done#1 requires recv == otherExecutionCtx && ok && h != ""                        [C01,C06]
 //@   site recv#1 requires ok    -- a later caller blocks until the registered execution is done       [C01,C06]
 //@   site recv#1 requires semLimited() ==> tok == 0                                                    [C07]
@@ -308,7 +323,8 @@ package task
 //@   site (*Executor).runCommand#1 ghost attempted := true
 //@   site (*Executor).statusOnError ghost set cleaned(t)
 //@   site (*Executor).mkdir#1 requires !e.Dry                                                         [C12]
-//@   ensures result != nil && fpTouched ==> cleaned(t)                                                [C04]
+//@   ensures result != nil && fpTouched ==> cleaned(t)                                                [C04,C05]
+//@   ensures result != nil && attempted ==> cleaned(t)   -- a failed attempt (forced or not, exit status or not) invalidates the record   [C04,C05]
 
 //@ func (*Executor).statusOnError
 //@   site fingerprint.NewSourcesChecker#1 requires arg0 == (t.Method != "" ? t.Method : e.Taskfile.Method)
@@ -380,12 +396,29 @@ package task
 // and the compiled task itself is a new object.
 //@ func (*Executor).compiledTask
 //@   site append requires fresh(arg1[0])                                                                       [C11,C18]
+// every command put into the compiled task (one per loop item, deferred, plain) keeps the attributes that
+// decide how its failure and its output are treated
+//@   site append#1 requires arg1[0].IgnoreError == cmd.IgnoreError && arg1[0].Silent == cmd.Silent && arg1[0].Defer == cmd.Defer   [C03,C02,C14]
+//@   site append#1 requires (arg1[0].Set == cmd.Set || iscopy(arg1[0].Set, cmd.Set)) && (arg1[0].Shopt == cmd.Shopt || iscopy(arg1[0].Shopt, cmd.Shopt)) && (arg1[0].Platforms == cmd.Platforms || iscopy(arg1[0].Platforms, cmd.Platforms))   [C03,C02]
+//@   site append#2 requires arg1[0].IgnoreError == cmd.IgnoreError && arg1[0].Silent == cmd.Silent && arg1[0].Defer == cmd.Defer   [C03,C02,C14]
+//@   site append#2 requires arg1[0].Cmd == cmd.Cmd && arg1[0].Task == cmd.Task   -- deferred commands are templated later, when they run   [C14]
+//@   site append#3 requires arg1[0].IgnoreError == cmd.IgnoreError && arg1[0].Silent == cmd.Silent && arg1[0].Defer == cmd.Defer   [C03,C02,C14]
+//@   site append#3 requires (arg1[0].Set == cmd.Set || iscopy(arg1[0].Set, cmd.Set)) && (arg1[0].Shopt == cmd.Shopt || iscopy(arg1[0].Shopt, cmd.Shopt)) && (arg1[0].Platforms == cmd.Platforms || iscopy(arg1[0].Platforms, cmd.Platforms))   [C03,C02]
+//@   site append#4 requires arg1[0].Silent == dep.Silent                                                       [C01]
+//@   site append#5 requires arg1[0].Silent == dep.Silent                                                       [C01]
 //@   ensures result.1 == nil ==> fresh(result.0)                                                               [C11]
 
 // Resolving the refs of a matrix must not write into the matrix of the task definition: it is shared by every
 // call of the task (and by concurrently compiling goroutines).
+//@ ghost var rowSet bool scratch
 //@ func resolveMatrixRefs$1
 //@   modifies github.com/go-task/task/v3/internal/templater.*, resolved.om, om_has, om_val, om_len, om_key     [C11,C18]
+// every row, literal or ref, is put into the copy during ITS OWN iteration, under its own key: the copy keeps
+// the declaration order of the rows, which is the order in which the loop is unrolled
+//@   init rowSet := false
+//@   site (*Matrix).Set#0 requires arg0 == resolved && arg1 == key                                              [C02]
+//@   site (*Matrix).Set#0 ghost rowSet := true
+//@   ensures result ==> rowSet                                                                                  [C02]
 
 // ---- C10: the layers of variables are applied in the documented order, later layers overriding earlier ones --
 // layer counts the sources applied so far: 0 environment, 1 special vars, 2 Taskfile env, 3 Taskfile vars,
